@@ -7,6 +7,12 @@ HERE = os.path.dirname(os.path.dirname(os.path.abspath(__file__)))
 
 # id -> (engine, technique, level text, level note, design ref)
 CHECKS = {
+    "C12": ("XH", "CrossHair symbolic execution of the real table renderer: width bounds and record limits are symbolic (unbounded) ints, layout structure concrete per shard; "
+            "an independent line-by-line checker of the printed text is the oracle",
+            "bounded model checking: per (column kinds, record set, header/footer) shard, every path of the real renderer over ALL maximum widths and ALL record limits is explored "
+            "(exhausted for most shards, the rest reported); thorough adds enumerated 1-3 column spaces",
+            "CrossHair models trusted for passes; enum cell texts per documented format; structure bounded (<=3 columns, <=6 records)",
+            "DESIGN.md 3/C12"),
     "C13": ("XH", "CrossHair-driven exhaustive enumeration (z3 choice variables) of column descriptions x limits x record sets x life stages; real PPTable code executed per case",
             "bounded exhaustive exploration with exhaustion certificate: every 1-column description within the width bound and 2-3 column combinations of representative descriptors, "
             "at every life stage; the reported fmt string is fed to the setter and the constructor and all renderings compared",
